@@ -7,6 +7,7 @@ import PyElf.Gen.Extra_C08
 import PyElf.Spec.ElfStructs
 import PyElf.Spec.Reloc
 import PyElf.Model.Relocation
+import PyElf.Proofs.RelocDyn
 namespace PyElf.Props.TieC08
 open PyElf
 
@@ -21,5 +22,29 @@ theorem elf_Elf_addr : Gen.elfBundles.map (fun b => (b.1, b.2.Elf_addr)) = Spec.
 theorem elf_value_structs :
     Gen.elfBundles.map (fun b => (b.2.Elf_byte, b.2.Elf_half, b.2.Elf_word, b.2.Elf_word64))
       = Gen.elfBundles.map (fun b => (Con.uint 1 b.1.le, Con.uint 2 b.1.le, Con.uint 4 b.1.le, Con.uint 8 b.1.le)) := by rfl
+
+/-- the regenerated dynamic-tag tables (common set and the three machine/OS extensions `Elf_Dyn` can be built over)
+    name the relocation-related tags DT_NULL, DT_REL*, DT_RELA*, DT_RELR*, DT_JMPREL, DT_PLTREL* with the gABI's
+    numbers, and give those names to no other number: the hypothesis `DTagEnv` of `C08.dyn_reloc_tables_exact`
+    holds of the library's environment for every configuration -/
+theorem dtag_env_common : Proofs.RelocDyn.DTagEnv Model.elfEnv "ENUM_D_TAG_COMMON" :=
+  Proofs.RelocDyn.dtagEnv_of_check (by decide +kernel)
+theorem dtag_env_solaris : Proofs.RelocDyn.DTagEnv Model.elfEnv "ENUM_D_TAG_COMMON+ENUM_D_TAG_SOLARIS" :=
+  Proofs.RelocDyn.dtagEnv_of_check (by decide +kernel)
+theorem dtag_env_mips : Proofs.RelocDyn.DTagEnv Model.elfEnv "ENUM_D_TAG_COMMON+ENUM_D_TAG_MIPS" :=
+  Proofs.RelocDyn.dtagEnv_of_check (by decide +kernel)
+theorem dtag_env_aarch64 : Proofs.RelocDyn.DTagEnv Model.elfEnv "ENUM_D_TAG_COMMON+ENUM_D_TAG_AARCH64" :=
+  Proofs.RelocDyn.dtagEnv_of_check (by decide +kernel)
+
+theorem dtag_env (mclass : String) (solaris : Bool) :
+    Proofs.RelocDyn.DTagEnv Model.elfEnv (Spec.dTagTable mclass solaris) := by
+  unfold Spec.dTagTable
+  split
+  · exact dtag_env_mips
+  · exact dtag_env_mips
+  · exact dtag_env_aarch64
+  · split
+    · exact dtag_env_solaris
+    · exact dtag_env_common
 
 end PyElf.Props.TieC08
